@@ -333,6 +333,9 @@ type decCase struct {
 	Reads  []decRead
 	Pushes []*ssa.Call
 	Pops   []*ssa.Call
+	// PopLand[i] (if present): the index of the tuple built by a counted-loop helper (popTuple(n)) at which the i-th
+	// entry of Pops lands
+	PopLand map[int]int64
 }
 
 type decoderTable struct {
@@ -490,6 +493,20 @@ func extractDecoder(p *core.Prog, r *core.Result, rule string) *decoderTable {
 					dc.Pops = append(dc.Pops, c)
 				default:
 					// a helper that pops one operand and hands it on (popGlobalPart() string) is a pop of the case
+					if cnt, desc, ok := countedPopLoop(dt, c); ok {
+						if dc.PopLand == nil {
+							dc.PopLand = map[int]int64{}
+						}
+						for i := int64(0); i < cnt; i++ {
+							if desc {
+								dc.PopLand[len(dc.Pops)] = cnt - 1 - i
+							} else {
+								dc.PopLand[len(dc.Pops)] = i
+							}
+							dc.Pops = append(dc.Pops, c)
+						}
+						break
+					}
 					if k := popWrapperCount(dt, core.Callee(c)); k > 0 {
 						for i := 0; i < k; i++ {
 							dc.Pops = append(dc.Pops, c)
@@ -1138,4 +1155,125 @@ func popWrapperCount(dt *decoderTable, h *ssa.Function) int {
 		}
 	}
 	return len(pops)
+}
+
+// countedPopLoop recognises a call of a Decoder helper that pops one operand per iteration of a counted loop over its
+// integer parameter n and stores it at the loop index of the slice it returns (popTuple(n): for k := n-1; k >= 0; k--
+// { t[k] = d.pop() }, or ascending from 0 while k < n), called with a constant n. It returns n and the direction.
+func countedPopLoop(dt *decoderTable, c *ssa.Call) (cnt int64, descending, ok bool) {
+	h := core.Callee(c)
+	if h == nil || h.Blocks == nil || h.Signature.Recv() == nil || recvNamed(h) != "Decoder" || h.Pkg == nil || h.Pkg.Pkg.Path() != pkgPickle {
+		return 0, false, false
+	}
+	var pops []*ssa.Call
+	other := false
+	core.Instrs(h, func(in ssa.Instruction) {
+		switch x := in.(type) {
+		case *ssa.Call:
+			switch core.Callee(x) {
+			case dt.pop:
+				pops = append(pops, x)
+			case dt.push:
+				other = true
+			}
+		case *ssa.Store:
+			if core.IsField(x.Addr, pkgPickle, "Decoder", "stack") {
+				other = true
+			}
+		}
+	})
+	if other || len(pops) != 1 {
+		return 0, false, false
+	}
+	pop := pops[0]
+	body := pop.Block()
+	// the body block jumps straight back to a header that has exactly one other predecessor
+	if len(body.Succs) != 1 || len(body.Preds) != 1 || body.Preds[0] != body.Succs[0] {
+		return 0, false, false
+	}
+	head := body.Succs[0]
+	iff, isIf := head.Instrs[len(head.Instrs)-1].(*ssa.If)
+	if !isIf || len(head.Preds) != 2 || head.Succs[0] != body {
+		return 0, false, false
+	}
+	cond, isBin := iff.Cond.(*ssa.BinOp)
+	if !isBin {
+		return 0, false, false
+	}
+	k, isPhi := cond.X.(*ssa.Phi)
+	if !isPhi || k.Block() != head {
+		return 0, false, false
+	}
+	var init, step ssa.Value
+	for i, pred := range head.Preds {
+		if pred == body {
+			step = k.Edges[i]
+		} else {
+			init = k.Edges[i]
+		}
+	}
+	sb, isStep := step.(*ssa.BinOp)
+	if !isStep || sb.X != ssa.Value(k) {
+		return 0, false, false
+	}
+	one, isOne := core.ConstInt(sb.Y)
+	if !isOne || one != 1 {
+		return 0, false, false
+	}
+	var n *ssa.Parameter
+	switch {
+	case sb.Op == token.SUB && cond.Op == token.GEQ:
+		// for k := n-1; k >= 0; k--
+		if z, isZ := core.ConstInt(cond.Y); !isZ || z != 0 {
+			return 0, false, false
+		}
+		ib, isB := init.(*ssa.BinOp)
+		if !isB || ib.Op != token.SUB {
+			return 0, false, false
+		}
+		if o, isO := core.ConstInt(ib.Y); !isO || o != 1 {
+			return 0, false, false
+		}
+		n, _ = ib.X.(*ssa.Parameter)
+		descending = true
+	case sb.Op == token.ADD && cond.Op == token.LSS:
+		// for k := 0; k < n; k++
+		if z, isZ := core.ConstInt(init); !isZ || z != 0 {
+			return 0, false, false
+		}
+		n, _ = cond.Y.(*ssa.Parameter)
+	}
+	if n == nil {
+		return 0, false, false
+	}
+	// the popped value is stored at index k of the slice that is returned
+	var target ssa.Value
+	for _, ref := range *pop.Referrers() {
+		if st, isSt := ref.(*ssa.Store); isSt && st.Val == ssa.Value(pop) {
+			if ia, isIA := st.Addr.(*ssa.IndexAddr); isIA && ia.Index == ssa.Value(k) {
+				target = ia.X
+			}
+		}
+	}
+	if target == nil {
+		return 0, false, false
+	}
+	for _, ret := range core.ReturnsOf(h) {
+		vals := core.RetVals(ret)
+		if len(vals) != 1 || vals[0] != target {
+			return 0, false, false
+		}
+	}
+	if ms, isMS := target.(*ssa.MakeSlice); !isMS || ms.Len != ssa.Value(n) {
+		return 0, false, false
+	}
+	i := paramIndex(h, n)
+	if i < 0 || i >= len(c.Call.Args) {
+		return 0, false, false
+	}
+	v, isConst := core.ConstInt(c.Call.Args[i])
+	if !isConst || v < 1 || v > 16 {
+		return 0, false, false
+	}
+	return v, descending, true
 }
